@@ -726,7 +726,8 @@ def _stable_prelude(rd, f, loop_stmt):
 class _StreamModel:
     """Abstract execution of every acyclic segment of one reader method with the ghost stream offset.
     mode: 'R6' search starts, 'R7' early hand-out keeps a delimiter tail, 'R8' conservation of the cursor
-    (generators), 'R9' conservation of the cursor (synchronous reader: returns, backlog appends, buffer replacement)."""
+    (generators), 'R9' conservation of the cursor (synchronous reader: returns, backlog appends, buffer replacement),
+    'R10' early hand-out of the synchronous read-until loop keeps a delimiter tail (callees followed, see delegate)."""
 
     def __init__(self, run, v, rd, f, mode, len_params=()):
         self.run, self.v, self.rd, self.f, self.mode = run, v, rd, f, mode
@@ -856,6 +857,23 @@ class _StreamModel:
                 self.hand_out(env, ps, s)
         if self.mode == 'R10' and isinstance(s, ast.Return) and s.value is not None and self.f.name != 'peek':
             self.tail_check(env, self.pieces(env, s.value), s)
+        if self.mode == 'R10' and isinstance(s, (ast.Assign, ast.AugAssign, ast.AnnAssign)):
+            # `flag = a < b`: remembered (as linear forms over path-start values) so that a later `if flag:` yields the branch fact
+            conds = dict(g.get('conds', {}))
+            for x in ast.walk(s):
+                if isinstance(x, ast.Name) and isinstance(x.ctx, ast.Store):
+                    conds.pop(x.id, None)
+            c = s.value if isinstance(s, (ast.Assign, ast.AnnAssign)) else None
+            tg = (s.targets if isinstance(s, ast.Assign) else [s.target]) if c is not None else []
+            if len(tg) == 1 and isinstance(tg[0], ast.Name) and isinstance(c, ast.Compare) and len(c.ops) == 1 \
+                    and isinstance(c.ops[0], (ast.Lt, ast.LtE, ast.Gt, ast.GtE)) \
+                    and not any(isinstance(y, ast.Call) and not (isinstance(y.func, ast.Name) and y.func.id in _PURE_CALLS) for y in ast.walk(c)):
+                a, b = env.eval(c.left), env.eval(c.comparators[0])
+                if isinstance(a, Lin) and isinstance(b, Lin):
+                    if isinstance(c.ops[0], (ast.Gt, ast.GtE)):
+                        a, b = b, a
+                    conds[tg[0].id] = (a, isinstance(c.ops[0], (ast.Lt, ast.Gt)), b)        # a < b (strict) or a <= b
+            g['conds'] = conds
         if not isinstance(s, (ast.Assign, ast.AugAssign, ast.AnnAssign)) or (isinstance(s, ast.AnnAssign) and s.value is None):
             return
         for t in (s.targets if isinstance(s, ast.Assign) else [s.target]):
@@ -1021,7 +1039,7 @@ class _StreamModel:
                     continue
                 need = hi + self.dl - Lin.const(1)
                 short_of = [] if env.prove_le(hi, lo) else [e for e in ends if not (_prove_le(env, need, e) or env._le0(need - e, 4))]
-                if short_of and any(env._le0(Lin.const(1) - fct, 4) for fct in env.facts):
+                if short_of and any(env._le0(Lin.const(1) - fct) for fct in env.facts):
                     continue                        # the path facts contradict each other: not a feasible path
                 msg = '%r byte(s) lie between the end of the bytes handed out%s and the end of the searched range; not provably >= len(delimiter) - 1' % (
                     (short_of[0] - hi) if short_of else 0, '' if self.depth == 0 else ' (`%s` in %s())' % (short(s, 50), self.f.name))
@@ -1029,8 +1047,8 @@ class _StreamModel:
                             'when the delimiter was not found in the buffered data and no new data is fetched, the bytes handed out (by the method or the '
                             'reader methods it delegates to) stay at least len(delimiter) - 1 bytes short of the end of the searched range',
                             not short_of, top, msg, self.wit,
-                            'BufferedReader over b"aaaa-" + b"-bbb" (chunk size 5), delimiter b"--": a bounded read_until(b"--", 4 + k) that ends inside the '
-                            'straddling delimiter returns its first byte(s) as content (multipart: two parts merged / "body part is too large" at the limit)')
+                            'BufferedReader(BytesIO(b"aaaaaa---bbb").read, 12, 8): read_until(b"---", 7) -> b"aaaaaa-" instead of b"aaaaaa": the head of a delimiter that '
+                            'straddles the end of the buffered data is handed out as content (multipart: two parts merged / "body part is too large" at the limit)')
 
     def delegate(self, env, call, callee):
         """A reader method that moves the buffer is called: follow it (two levels) with the caller's path facts and the actual
@@ -1104,6 +1122,17 @@ class _StreamModel:
             return
         if n.kind == 'stmt':
             self.pre_stmt(env, n.ast)
+        elif n.kind == 'test' and label in ('T', 'F') and self.mode == 'R10':
+            t, truth = n.ast, label == 'T'
+            while isinstance(t, ast.UnaryOp) and isinstance(t.op, ast.Not):
+                t, truth = t.operand, not truth
+            c = env.ghost.get('conds', {}).get(t.id) if isinstance(t, ast.Name) else None
+            if c is not None:
+                a, strict, b = c
+                if truth:
+                    env.add_le(a + Lin.const(1 if strict else 0), b)
+                else:
+                    env.add_le(b + Lin.const(0 if strict else 1), a)
         elif n.kind == 'iter' and label == 'next':
             g = env.ghost
             names = {x.id for x in ast.walk(n.stmt.target) if isinstance(x, ast.Name)}
